@@ -10,6 +10,7 @@ import (
 	"nvharness/lib/corr"
 	"nvharness/lib/gofacts"
 	_ "nvharness/lib/quiet"
+	"nvharness/lib/rng"
 )
 
 func main() {
@@ -24,8 +25,24 @@ func main() {
 		corr.Main(spec(), os.Args[2:])
 	case "runone":
 		runOne()
+	case "gen": // c02 gen <seed> <tier> <from> <to>: print generated cases (diagnostics)
+		dumpCases(os.Args[2:])
 	default:
 		os.Exit(2)
+	}
+}
+
+func dumpCases(a []string) {
+	var seed uint64
+	var from, to int
+	fmt.Sscan(a[0], &seed)
+	fmt.Sscan(a[2], &from)
+	fmt.Sscan(a[3], &to)
+	sp := spec()
+	root := rng.New(seed)
+	for i := from; i < to; i++ {
+		c := sp.Gen(root.Fork(uint64(i)), a[1], i)
+		fmt.Printf("# case %d %s\n%s\n", i, c.Tag, strings.Join(c.Lines, "\n"))
 	}
 }
 
